@@ -51,6 +51,10 @@ func runC10(w *World, r *Report, tier string) {
 		}
 	}
 	ruleExpansion(w, r)
+	ruleNoClamp(w, r, "integrate.VerticalZoom")
+	ruleNoClamp(w, r, "integrate.HorizontalZoomMinMax")
+	ruleElementwise(w, r, "shape.ConvertSpatialIdsToExtendedSpatialIds", 0)
+	ruleElementwise(w, r, "shape.ConvertExtendedSpatialIdsToSpatialIds", 0)
 	guardRows(w, r, "C10")
 }
 
@@ -74,6 +78,9 @@ func runC11(w *World, r *Report, tier string) {
 	rulePairDedup(w, r, "transform.ConvertExtendedSpatialIDsToQuadkeysAndVerticalIDs")
 	rulePairDedup(w, r, "transform.ConvertExtendedSpatialIDsToQuadkeysAndAltitudekeys")
 	ruleNoFloat(w, r, cl)
+	for _, n := range names {
+		ruleElementwise(w, r, n, 0)
+	}
 	// REUSE: the per-axis zoom change is integrate's
 	r.Rule("REUSE", "the horizontal and vertical components of both conversion directions are produced by integrate.HorizontalZoom / integrate.VerticalZoom (resolved callees), so different output zooms behave exactly like the zoom change of C03 on each axis")
 	for _, n := range names {
@@ -125,6 +132,7 @@ func runC12(w *World, r *Report, tier string) {
 	ruleUpperBoundForm(w, r, cl)
 	ruleNoPartial(w, r, "transform.ConvertZToMinMaxAltitudekey")
 	ruleNoPartial(w, r, "transform.ConvertAltitudekeyToMinMaxZ")
+	guardRows(w, r, "C12")
 }
 
 func runC13(w *World, r *Report, tier string) {
@@ -149,6 +157,8 @@ func runC13(w *World, r *Report, tier string) {
 	kr.emit(w, r, []string{"ROUND", "KIND-CALL", "KIND-LAYOUT", "KIND-STORE"}, own)
 	ruleTileLoop(w, r)
 	ruleTileCompose(w, r)
+	ruleElementwise(w, r, "transform.ConvertTileXYZsToExtendedSpatialIDs", 0)
+	ruleElementwise(w, r, "transform.ConvertTileXYZsToSpatialIDs", 0)
 	if f := lookupByName(w, "transform.ConvertTileXYZsToExtendedSpatialIDs"); f != nil {
 		ruleDistinct(w, r, f)
 	}
